@@ -5,8 +5,8 @@
    createCookie / isCookieValid at handler granularity), with the P-level
    monitors of the property:
      AcceptOK            a connection reaches the accept queue only after a SYN
-                         and then a non-RST ACK with ack = iss+1 and an acceptable
-                         sequence number (irs+1 .. irs+W)
+                         and then a non-RST segment with ACK = iss+1 (iss: what
+                         the stack chose in the SYN-ACK answering that SYN)
      ConnectOK           an active open completes only after a SYN and an ACK of
                          exactly iss+1 were delivered (SYN-ACK, or SYN then ACK)
      BadAck              a non-RST segment acknowledging anything else, delivered
@@ -16,12 +16,15 @@
                          connection: it may drop silently)
      ResetNeverAnswered  nothing is emitted in response to a RST
    Sequence arithmetic is modulo M (wrap explored: ISS placements 0, 1, H-1, H,
-   M-1).  Code variants: SeqChecked (FALSE = the tree as found: synRcvdState
-   completes on ANY sequence number, finding F20), CookieExact (FALSE = as
-   found: the MSS index is added into the cookie and any index validates, so
-   ack numbers iss+1-(ND-1) .. iss+1+(ND-1) can be accepted, finding F21). *)
+   M-1).  Code variant CookieExact (FALSE = the tree as found: the MSS index and
+   the peer's sequence number are ADDED into the cookie and validation uses the
+   sequence number of the ACK itself, so ack numbers iss+1-(ND-1) .. iss+1+(ND-1)
+   (finding F21) and any pair (seq+k, ack+k) (finding F22) are accepted).  Observation
+   outside the statement: synRcvdState completes on ANY sequence number of the
+   final ACK (no RFC 793 acceptability test); the property does not speak about
+   that number, so AcceptOK does not either. *)
 EXTENDS Integers, Sequences, FiniteSets, TLC
-CONSTANTS M, W, MaxSeg, Roles, SeqChecked, CookieExact, ND, PeerISSs, OwnISSs
+CONSTANTS M, W, MaxSeg, Roles, CookieExact, ND, PeerISSs, OwnISSs
 H == M \div 2
 SeqOff == {0, 1, 2, H}
 AckOff == {-1, 0, 1, 2, H}
@@ -34,9 +37,9 @@ Md(x) == x % M
 Acceptable(seq, nxt) == Md(seq - nxt) < W
 
 VARIABLES role, st, iss, irs, active, known, piss, K, nseg, out, acceptq, connup,
-          syns, issued, sent, qual, qual20, qual21, cqual, okBadAck, okRst
+          synSeen, issued, sent, qual, qual21, cqual, okBadAck, okRst
 vars == <<role, st, iss, irs, active, known, piss, K, nseg, out, acceptq, connup,
-          syns, issued, sent, qual, qual20, qual21, cqual, okBadAck, okRst>>
+          synSeen, issued, sent, qual, qual21, cqual, okBadAck, okRst>>
 
 Rst(sq, s, f)  == [f |-> "RA", seq |-> sq, ack |-> Md(s + SegLen(f))]
 SynAck(i, r)   == [f |-> "SA", seq |-> i, ack |-> Md(r + 1)]
@@ -44,9 +47,14 @@ Syn(i)         == [f |-> "S", seq |-> i, ack |-> 0]
 AckSeg(i, r)   == [f |-> "A", seq |-> Md(i + 1), ack |-> Md(r + 1)]
 
 Cookie(seq, d) == Md(K + seq + d)
+\* The hash is treated as unforgeable (the 2^-22 guessing probability is not explored): a cookie validates only if it
+\* derives from a SYN-ACK actually issued to that peer.  As found, createCookie ADDS the peer's sequence number and the
+\* MSS index into the cookie and isCookieValid subtracts the sequence number of the ACK itself, so all that is checked
+\* is that (ack - seq) differs from (r.iss - r.irs) by a legal index shift: F21 (index tolerance), F22 (common shift)
+Shift(ack, seq, r) == Md(ack - seq - r.iss + r.irs + ND) - ND
 CookieValid(ack, seq) ==
-  IF CookieExact THEN \E r \in issued : r.iss = Md(ack - 1) /\ r.irs = Md(seq - 1)
-  ELSE Md(ack - 1 - K - (seq - 1)) < ND
+  \E r \in issued : IF CookieExact THEN r.irs = Md(seq - 1) /\ r.iss = Md(ack - 1)
+                                   ELSE (r.d + Shift(ack, seq, r)) \in 0..(ND - 1)
 
 Init == /\ role \in Roles
         /\ piss \in PeerISSs /\ K \in OwnISSs
@@ -57,39 +65,38 @@ Init == /\ role \in Roles
         /\ irs = 0 /\ nseg = 0
         /\ out = IF role = "active" THEN <<Syn(K)>> ELSE <<>>
         /\ acceptq = 0 /\ connup = FALSE
-        /\ syns = {} /\ issued = {} /\ sent = IF role = "active" THEN {K} ELSE {}
-        /\ qual = FALSE /\ qual20 = FALSE /\ qual21 = FALSE /\ cqual = FALSE
+        /\ synSeen = FALSE /\ issued = {} /\ sent = IF role = "active" THEN {K} ELSE {}
+        /\ qual = FALSE /\ qual21 = FALSE /\ cqual = FALSE
         /\ okBadAck = TRUE /\ okRst = TRUE
 
 \* the peer's segment: flags f, sequence number piss+so, ack number (stack ISS if known, else 0)+ao, MSS index d
 SeqOf(so) == Md(piss + so)
 AckOf(f, ao) == IF HasA(f) THEN Md((IF known THEN iss ELSE 0) + ao) ELSE 0
-Shape(f, so, ao, d) == /\ f \in FlagSets /\ so \in SeqOff /\ ao \in AckOff /\ d \in 0..(ND - 1)
+DSet == {0, ND - 1}          \* MSS index of a SYN: lowest / highest table entry
+Shape(f, so, ao, d) == /\ f \in FlagSets /\ so \in SeqOff /\ ao \in AckOff /\ d \in DSet
                        /\ (~HasA(f) => ao = 0) /\ (f # "S" => d = 0)
                        /\ nseg < MaxSeg
 
 \* ---- P-level monitors (history folded into a few booleans/sets)
-QualNow(f, seq, ack, strictSeq, tol) ==
+QualNow(f, seq, ack, tol) ==
   /\ HasA(f) /\ ~HasR(f)
-  /\ \E r \in issued : /\ r.irs \in syns
-                       /\ IF tol THEN Md(ack - r.iss - 1 + (ND - 1)) <= 2 * (ND - 1) /\ seq = Md(r.irs + 1)
+  /\ \E r \in issued : /\ synSeen                  \* r answers a delivered SYN (the model emits SYN-ACKs for nothing else)
+                       /\ IF tol THEN Shift(ack, seq, r) \in (1 - ND)..(ND - 1)       \* shape of F21 / F22
                                  ELSE ack = Md(r.iss + 1)
-                       /\ (strictSeq => Acceptable(seq, Md(r.irs + 1)))
-Monitors(f, seq, ack, o, st2) ==
-  /\ syns' = IF HasS(f) /\ ~HasR(f) THEN syns \cup {seq} ELSE syns
-  /\ issued' = issued \cup {[iss |-> o[i].seq, irs |-> Md(o[i].ack - 1)] : i \in {j \in 1..Len(o) : o[j].f = "SA"}}
+Monitors(f, seq, ack, o, st2, dd) ==
+  /\ synSeen' = (synSeen \/ (HasS(f) /\ ~HasR(f)))
+  /\ issued' = issued \cup {[iss |-> o[i].seq, irs |-> Md(o[i].ack - 1), d |-> dd] : i \in {j \in 1..Len(o) : o[j].f = "SA"}}
   /\ sent' = sent \cup {o[i].seq : i \in {j \in 1..Len(o) : HasS(o[j].f)}}
-  /\ qual' = (qual \/ QualNow(f, seq, ack, TRUE, FALSE))
-  /\ qual20' = (qual20 \/ QualNow(f, seq, ack, FALSE, FALSE))
-  /\ qual21' = (qual21 \/ QualNow(f, seq, ack, FALSE, TRUE))
-  /\ cqual' = (cqual \/ (HasA(f) /\ ~HasR(f) /\ (\E x \in sent : ack = Md(x + 1)) /\ (HasS(f) \/ syns # {})))
+  /\ qual' = (qual \/ QualNow(f, seq, ack, FALSE))
+  /\ qual21' = (qual21 \/ QualNow(f, seq, ack, TRUE))
+  /\ cqual' = (cqual \/ (HasA(f) /\ ~HasR(f) /\ (\E x \in sent : ack = Md(x + 1)) /\ (HasS(f) \/ synSeen)))
   /\ okBadAck' = (okBadAck /\ ((st \in {"synsent", "synrcvd"} /\ HasA(f) /\ ~HasR(f) /\ ack # Md(iss + 1))
                                => (Len(o) = 1 /\ HasR(o[1].f) /\ o[1].seq = ack /\ st2 = st)))
   /\ okRst' = (okRst /\ (HasR(f) => o = <<>>))
   /\ nseg' = nseg + 1 /\ out' = o
   /\ UNCHANGED <<role, piss, K, active>>
 
-Same(f, seq, ack, o) == /\ Monitors(f, seq, ack, o, st) /\ UNCHANGED <<st, iss, irs, known, acceptq, connup>>
+Same(f, seq, ack, o) == /\ Monitors(f, seq, ack, o, st, 0) /\ UNCHANGED <<st, iss, irs, known, acceptq, connup>>
 
 \* ---- listener (accept.go handleListenSegment): exact flag patterns only
 ListenSyn(f, so, ao, d) ==
@@ -97,13 +104,13 @@ ListenSyn(f, so, ao, d) ==
   /\ LET seq == SeqOf(so) c == Cookie(SeqOf(so), d) IN
      /\ iss' = c /\ irs' = seq /\ known' = TRUE
      /\ st' = IF role = "cookie" THEN "listen" ELSE "synrcvd"
-     /\ Monitors(f, seq, 0, <<SynAck(c, seq)>>, st')
+     /\ Monitors(f, seq, 0, <<SynAck(c, seq)>>, st', d)
      /\ UNCHANGED <<acceptq, connup>>
 ListenAckValid(f, so, ao, d) ==
   /\ Shape(f, so, ao, d) /\ st = "listen" /\ f = "A" /\ CookieValid(AckOf(f, ao), SeqOf(so))
   /\ st' = "est" /\ acceptq' = acceptq + 1
   /\ iss' = Md(AckOf(f, ao) - 1) /\ irs' = Md(SeqOf(so) - 1) /\ known' = TRUE
-  /\ Monitors(f, SeqOf(so), AckOf(f, ao), <<>>, st')
+  /\ Monitors(f, SeqOf(so), AckOf(f, ao), <<>>, st', 0)
   /\ UNCHANGED connup
 ListenDrop(f, so, ao, d) ==
   /\ Shape(f, so, ao, d) /\ st = "listen" /\ f # "S" /\ ~(f = "A" /\ CookieValid(AckOf(f, ao), SeqOf(so)))
@@ -117,7 +124,7 @@ HsRst(f, so, ao, d) ==
   /\ LET seq == SeqOf(so) ack == AckOf(f, ao)
          kill == IF st = "synsent" THEN HasA(f) /\ ack = Md(iss + 1) ELSE Acceptable(seq, Md(irs + 1)) IN
      /\ st' = IF kill THEN Gone ELSE st
-     /\ Monitors(f, seq, ack, <<>>, st')
+     /\ Monitors(f, seq, ack, <<>>, st', 0)
      /\ UNCHANGED <<iss, irs, known, acceptq, connup>>
 HsBadAck(f, so, ao, d) ==
   /\ Shape(f, so, ao, d) /\ InHs /\ ~HasR(f) /\ HasA(f) /\ AckOf(f, ao) # Md(iss + 1)
@@ -129,12 +136,12 @@ SentNoSyn(f, so, ao, d) ==
 SentSynAck(f, so, ao, d) ==
   /\ Shape(f, so, ao, d) /\ st = "synsent" /\ Good(f, ao) /\ f = "SA"
   /\ st' = "est" /\ connup' = TRUE /\ irs' = SeqOf(so)
-  /\ Monitors(f, SeqOf(so), AckOf(f, ao), <<AckSeg(iss, SeqOf(so))>>, st')
+  /\ Monitors(f, SeqOf(so), AckOf(f, ao), <<AckSeg(iss, SeqOf(so))>>, st', 0)
   /\ UNCHANGED <<iss, known, acceptq>>
 SentSyn(f, so, ao, d) ==
   /\ Shape(f, so, ao, d) /\ st = "synsent" /\ f = "S"
   /\ st' = "synrcvd" /\ irs' = SeqOf(so)
-  /\ Monitors(f, SeqOf(so), 0, <<SynAck(iss, SeqOf(so))>>, st')
+  /\ Monitors(f, SeqOf(so), 0, <<SynAck(iss, SeqOf(so))>>, st', 0)
   /\ UNCHANGED <<iss, known, acceptq, connup>>
 RcvdOtherSyn(f, so, ao, d) ==                         \* a second SYN with another sequence number
   /\ Shape(f, so, ao, d) /\ st = "synrcvd" /\ Good(f, ao) /\ HasS(f) /\ SeqOf(so) # irs
@@ -142,18 +149,16 @@ RcvdOtherSyn(f, so, ao, d) ==                         \* a second SYN with anoth
      IF active
      THEN \E ni \in OwnISSs :                          \* resetState draws a fresh ISS and the SYN is sent again
             /\ st' = "synsent" /\ iss' = ni
-            /\ Monitors(f, seq, ack, <<r, Syn(ni)>>, st')
+            /\ Monitors(f, seq, ack, <<r, Syn(ni)>>, st', 0)
             /\ UNCHANGED <<irs, known, acceptq, connup>>
-     ELSE /\ st' = "listen" /\ Monitors(f, seq, ack, <<r>>, st')
+     ELSE /\ st' = "listen" /\ Monitors(f, seq, ack, <<r>>, st', 0)
           /\ UNCHANGED <<iss, irs, known, acceptq, connup>>
-RcvdAck(f, so, ao, d) ==                              \* ack = iss+1: the handshake completes (F20: whatever the sequence number)
+RcvdAck(f, so, ao, d) ==                              \* ack = iss+1: the handshake completes (whatever the sequence number)
   /\ Shape(f, so, ao, d) /\ st = "synrcvd" /\ Good(f, ao) /\ HasA(f) /\ (HasS(f) => SeqOf(so) = irs)
-  /\ IF SeqChecked /\ ~Acceptable(SeqOf(so), Md(irs + 1))
-     THEN Same(f, SeqOf(so), AckOf(f, ao), <<AckSeg(iss, irs)>>)
-     ELSE /\ st' = "est"
-          /\ IF active THEN connup' = TRUE /\ UNCHANGED acceptq ELSE acceptq' = acceptq + 1 /\ UNCHANGED connup
-          /\ Monitors(f, SeqOf(so), AckOf(f, ao), <<>>, st')
-          /\ UNCHANGED <<iss, irs, known>>
+  /\ st' = "est"
+  /\ IF active THEN connup' = TRUE /\ UNCHANGED acceptq ELSE acceptq' = acceptq + 1 /\ UNCHANGED connup
+  /\ Monitors(f, SeqOf(so), AckOf(f, ao), <<>>, st', 0)
+  /\ UNCHANGED <<iss, irs, known>>
 RcvdIgnore(f, so, ao, d) ==
   /\ Shape(f, so, ao, d) /\ st = "synrcvd" /\ ~HasR(f) /\ ~HasA(f) /\ (HasS(f) => SeqOf(so) = irs)
   /\ Same(f, SeqOf(so), 0, <<>>)
@@ -161,17 +166,23 @@ DeadSeg(f, so, ao, d) ==                              \* failed active open: the
   /\ Shape(f, so, ao, d) /\ st = "dead"
   /\ Same(f, SeqOf(so), AckOf(f, ao), <<>>)
 
-Next == \E f \in FlagSets, so \in SeqOff, ao \in AckOff, d \in 0..(ND - 1) :
+Next == \E f \in FlagSets, so \in SeqOff, ao \in AckOff, d \in DSet :
           \/ ListenSyn(f, so, ao, d) \/ ListenAckValid(f, so, ao, d) \/ ListenDrop(f, so, ao, d)
           \/ HsRst(f, so, ao, d) \/ HsBadAck(f, so, ao, d)
           \/ SentNoSyn(f, so, ao, d) \/ SentSynAck(f, so, ao, d) \/ SentSyn(f, so, ao, d)
           \/ RcvdOtherSyn(f, so, ao, d) \/ RcvdAck(f, so, ao, d) \/ RcvdIgnore(f, so, ao, d)
           \/ DeadSeg(f, so, ao, d)
 Spec == Init /\ [][Next]_vars
+\* the last response is determined by the step; hiding it merges states that differ only in it (invariants speak about monitors)
+ViewNoOut == <<role, st, iss, irs, active, known, piss, K, nseg, acceptq, connup, synSeen, issued, sent, qual, qual21, cqual, okBadAck, okRst>>
+
+\* quotient used only to DUMP a replay graph (not for the exhaustive run): everything the next steps depend on, placement-free
+ViewReplay == <<role, st, active, known, nseg, acceptq, connup, out, Md(irs - piss), Md(iss - K - irs),
+                {<<Md(r.irs - piss), Md(r.iss - K - r.irs), r.d>> : r \in issued}>>
 
 \* ---- the property
-AcceptOK  == acceptq > 0 => (qual \/ (~SeqChecked /\ qual20) \/ (~CookieExact /\ qual21))
-AcceptStrict == acceptq > 0 => qual                  \* fails on the tree as found (F20, F21): used to show the monitors bite
+AcceptOK  == acceptq > 0 => (qual \/ (~CookieExact /\ qual21))   \* second disjunct: known findings F21 / F22
+AcceptStrict == acceptq > 0 => qual                  \* fails on the tree as found (F21, F22): shows that the monitors bite
 ConnectOK == connup => cqual
 BadAck    == okBadAck
 ResetNeverAnswered == okRst
